@@ -105,6 +105,7 @@ type FB struct {
 	rngBusy      map[ssa.Value]bool
 	factMemo     map[*ssa.BasicBlock][]Lin
 	lenMemo      map[ssa.Value]Lin
+	getterMap    map[*ssa.Function][]*ssa.Call
 	canonMap     map[canonKey]ssa.Value
 	nnPhis       map[*ssa.Phi]bool
 	nnDone       bool
@@ -287,6 +288,9 @@ type canonKey struct {
 // unmodified object: within one function, when the function itself never stores to that field,
 // two loads of base.f denote the same value (assumption: callees do not mutate parsed messages).
 func (fb *FB) canon(v ssa.Value) ssa.Value {
+	if call, isCall := v.(*ssa.Call); isCall {
+		return fb.canonGetter(call)
+	}
 	ld, ok := isLoad(v)
 	if !ok {
 		return v
@@ -2776,4 +2780,74 @@ func (fb *FB) linThroughPlainCall(call *ssa.Call) (Lin, bool) {
 		return Lin{}, false
 	}
 	return tr(rt.Results[0], 0)
+}
+
+// canonGetter unifies two calls of the same small pure method (a getter such as allocator.EndOfFile()) with the same
+// arguments when nothing between them can change what it reads: the first call dominates the second and no store, map update or
+// impure call lies on any path from the first to the second.
+func (fb *FB) canonGetter(call *ssa.Call) ssa.Value {
+	g := call.Call.StaticCallee()
+	if g == nil || g.Blocks == nil || len(g.Blocks) > 3 || !inModule(fnPkgPath(g)) || !pureFunction(g) || call.Parent() != fb.fn {
+		return call
+	}
+	if fb.getterMap == nil {
+		fb.getterMap = map[*ssa.Function][]*ssa.Call{}
+		instrs(fb.fn, func(in ssa.Instruction) {
+			if c2, ok := in.(*ssa.Call); ok {
+				if h := c2.Call.StaticCallee(); h != nil && h.Blocks != nil && len(h.Blocks) <= 3 && inModule(fnPkgPath(h)) && pureFunction(h) {
+					fb.getterMap[h] = append(fb.getterMap[h], c2)
+				}
+			}
+		})
+	}
+	quiet := func(in ssa.Instruction) bool {
+		switch x := in.(type) {
+		case *ssa.Store, *ssa.MapUpdate, *ssa.Send, *ssa.Go, *ssa.Defer, *ssa.RunDefers:
+			return false
+		case *ssa.Call:
+			if _, isB := x.Call.Value.(*ssa.Builtin); isB {
+				return true
+			}
+			h := x.Call.StaticCallee()
+			return h != nil && h.Blocks != nil && inModule(fnPkgPath(h)) && pureFunction(h)
+		}
+		return true
+	}
+	for _, first := range fb.getterMap[g] {
+		if first == call {
+			break
+		}
+		if len(first.Call.Args) != len(call.Call.Args) || !instrDominates(first, call) {
+			continue
+		}
+		same := true
+		for i := range first.Call.Args {
+			a, b := first.Call.Args[i], call.Call.Args[i]
+			if a != b {
+				if _, isCall := a.(*ssa.Call); isCall {
+					same = false
+				} else if fb.canon(a) != fb.canon(b) {
+					same = false
+				}
+			}
+		}
+		if !same {
+			continue
+		}
+		ok := true
+		for _, b := range fb.fn.Blocks {
+			for _, in := range b.Instrs {
+				if in == ssa.Instruction(first) || in == ssa.Instruction(call) {
+					continue
+				}
+				if canReach(first, in) && canReach(in, call) && !quiet(in) {
+					ok = false
+				}
+			}
+		}
+		if ok {
+			return first
+		}
+	}
+	return call
 }
